@@ -414,5 +414,8 @@ func (l *leader) checkLogCompact() {
 			return
 		}
 	}
+	if verif {
+		verifPoint("ldr.precompact", l.snaps.dir)
+	}
 	_ = l.compactLog(l.removeLTE)
 }
